@@ -1062,49 +1062,53 @@ Proof.
 Qed.
 
 (* The bytes between the name of an svg / math / xml start tag and the end tag of the element, read as shiftXML reads
-   them.  State: inside a tag (it; we start inside the start tag), inside an attribute value quoted by q (0 = none).
-   Quotes count only inside tags; '>' leaves a tag; in character data a '<' enters a tag unless "<!" or "<?" follows
-   (comments, CDATA, processing instructions are character data) and "</" + letters must not name the element itself
-   (nested end tags are character data); no NUL; at the end we are in character data. *)
-Fixpoint xml_wf (raw : Z) (it : bool) (q : Z) (s : list Z) : bool :=
+   them.  State: inside a tag (it; we start inside the start tag), inside an attribute value quoted by q (0 = none),
+   inside a comment / CDATA section / processing instruction (sk = 1 / 2 / 3, 0 = none; "-->", "]]>", "?>" end them;
+   whatever they contain, end tags of the element included, is skipped).
+   Quotes count only inside tags; '>' leaves a tag; in character data "<!--", "<![CDATA[", "<?" open a skipped section, any
+   other '<' enters a tag unless "<!" follows, and "</" + letters must not name the element itself (nested end tags
+   are character data); no NUL; at the end we are in character data.  fuel: at least the length of s. *)
+Fixpoint xml_wf (fuel : nat) (raw : Z) (it : bool) (q sk : Z) (s : list Z) : bool :=
   match s with
-  | [] => negb it && (q =? 0)
+  | [] => negb it && (q =? 0) && (sk =? 0)
   | c :: t =>
-      if c =? 0 then false
-      else if negb (q =? 0) then xml_wf raw it (if c =? q then 0 else q) t
-      else if it then xml_wf raw (negb (c =? 62)) (if (c =? 34) || (c =? 39) then c else 0) t
-      else if c =? 60 then
-        match t with
-        | [] => false
-        | c1 :: t1 =>
-            if c1 =? 47
-            then match to_hash (map lower (letter_run t1)) with Ok h => negb (h =? raw) | _ => false end && xml_wf raw false 0 t
-            else xml_wf raw (negb (c1 =? 33) && negb (c1 =? 63)) 0 t
-        end
-      else xml_wf raw false 0 t
+      match fuel with
+      | O => false
+      | S k =>
+          if c =? 0 then false
+          else if negb (sk =? 0) then
+            if ((sk =? 1) && prefixb [45; 45; 62] s) || ((sk =? 2) && prefixb [93; 93; 62] s) then xml_wf k raw it q 0 (skipz 2 t)
+            else if (sk =? 3) && prefixb [63; 62] s then xml_wf k raw it q 0 (skipz 1 t)
+            else xml_wf k raw it q sk t
+          else if negb (q =? 0) then xml_wf k raw it (if c =? q then 0 else q) 0 t
+          else if it then xml_wf k raw (negb (c =? 62)) (if (c =? 34) || (c =? 39) then c else 0) 0 t
+          else if c =? 60 then
+            match t with
+            | [] => false
+            | c1 :: t1 =>
+                if c1 =? 47
+                then match to_hash (map lower (letter_run t1)) with Ok h => negb (h =? raw) | _ => false end &&
+                     xml_wf k raw false 0 0 (skipz (len (letter_run t1)) t1)
+                else if prefixb [33; 45; 45] t then xml_wf k raw false 0 1 (skipz 3 t)
+                else if prefixb [33; 91; 67; 68; 65; 84; 65; 91] t then xml_wf k raw false 0 2 (skipz 8 t)
+                else if c1 =? 63 then xml_wf k raw false 0 3 t1
+                else xml_wf k raw (negb (c1 =? 33)) 0 0 t
+            end
+          else xml_wf k raw false 0 0 t
+      end
   end.
-
-Lemma xml_wf_data_skip raw u r : Forall (fun c => c <> 60 /\ c <> 0) u -> xml_wf raw false 0 (u ++ r) = xml_wf raw false 0 r.
-Proof.
-  intros Hu. induction Hu as [|c u [H60 H0] _ IH]; [reflexivity|]. cbn [app xml_wf].
-  replace (c =? 0) with false by (symmetry; apply Z.eqb_neq; exact H0). cbn [Z.eqb negb].
-  replace (c =? 60) with false by (symmetry; apply Z.eqb_neq; exact H60). exact IH.
-Qed.
-
-Lemma letter_data c : is_letter c = true -> c <> 60 /\ c <> 0.
-Proof. intros H. split; intros ->; discriminate. Qed.
 
 (* at "</" + letters in character data: the hash of the letters decides *)
 Lemma xml_body_endtag raw z ls rest : reads z (60 :: 47 :: ls ++ rest) -> Forall (fun c => is_letter c = true) ls ->
   (rest = [] \/ exists c r, rest = c :: r /\ is_letter c = false) ->
-  xml_body raw (z, false, 0) =
+  xml_body raw (z, false, 0, 0) =
   (h <-- to_hash (map lower ls) ;;
-   if h =? raw then Ok (Brk (inl (mv z (2 + len ls)))) else Ok (Cont (mv z (2 + len ls), false, 0))).
+   if h =? raw then Ok (Brk (inl (mv z (2 + len ls)))) else Ok (Cont (mv z (2 + len ls), false, 0, 0))).
 Proof.
   intros Hr Hlet Hrest. pose proof (len_nonneg ls). pose proof (len_nonneg rest).
   assert (Hst : lstart z <= lpos z) by (destruct Hr as [(_ & ? & _) _]; lia).
-  unfold xml_body. rewrite (reads_pkr z _ 0 60 Hr (peekz_cons_0 _ _)). cbn [rbind Z.eqb negb andb].
-  rewrite (reads_pkr z _ 1 47 Hr (peekz_1 _ _ _)). cbn [rbind Z.eqb negb].
+  unfold xml_body. rewrite (reads_pkr z _ 0 60 Hr (peekz_cons_0 _ _)). cbn [rbind Z.eqb Pos.eqb negb andb].
+  rewrite (reads_pkr z _ 1 47 Hr (peekz_1 _ _ _)). cbn [rbind Z.eqb Pos.eqb negb].
   pose proof (reads_mv _ _ 2 Hr ltac:(rewrite !len_cons; pose proof (len_nonneg (ls ++ rest)); lia)) as Hr2.
   change (skipz 2 (60 :: 47 :: ls ++ rest)) with (ls ++ rest) in Hr2.
   rewrite (letters_loop_reads _ ls rest Hr2 Hlet Hrest). cbn [rbind].
@@ -1122,71 +1126,138 @@ Proof.
   rewrite Hbytes. rewrite mv_mv. reflexivity.
 Qed.
 
+Lemma prefixb_app_stop p : forall r x rest, ~ In x p -> prefixb p (r ++ x :: rest) = prefixb p r.
+Proof.
+  induction p as [|y p IH]; intros r x rest Hn; [reflexivity|]. destruct r as [|b r]; cbn [app prefixb].
+  - replace (y =? x) with false; [reflexivity|]. symmetry. apply Z.eqb_neq. intros ->. apply Hn. left. reflexivity.
+  - rewrite IH; [reflexivity|]. intros Hin. apply Hn. right. exact Hin.
+Qed.
+
+Lemma prefixb_cons_same x p s : prefixb (x :: p) (x :: s) = prefixb p s.
+Proof. cbn [prefixb]. rewrite Z.eqb_refl. reflexivity. Qed.
+
 Lemma xml_loop_run raw ename erest : Forall (fun c => is_letter c = true) ename -> to_hash (map lower ename) = Ok raw ->
   (exists c r, erest = c :: r /\ is_letter c = false) ->
-  forall n inner, (length inner <= n)%nat -> forall z it q fuel,
-  reads z (inner ++ 60 :: 47 :: ename ++ erest) -> xml_wf raw it q inner = true -> (length inner < fuel)%nat ->
-  loop fuel (xml_body raw) (z, it, q) = Ok (inl (mv z (len inner + 2 + len ename))).
+  forall n inner, (length inner <= n)%nat -> forall z it q sk fuel,
+  reads z (inner ++ 60 :: 47 :: ename ++ erest) -> xml_wf n raw it q sk inner = true -> (length inner < fuel)%nat ->
+  loop fuel (xml_body raw) (z, it, q, sk) = Ok (inl (mv z (len inner + 2 + len ename))).
 Proof.
-  intros Hlet Hhash (ce & re & Ee & Hce). induction n as [|n IH]; intros inner Hn z it q fuel Hr Hwf Hf.
+  intros Hlet Hhash (ce & re & Ee & Hce). induction n as [|n IH]; intros inner Hn z it q sk fuel Hr Hwf Hf.
   all: destruct fuel as [|k]; [lia|]; cbn [loop].
   all: destruct inner as [|c t].
   1,3: (* at the end tag *)
-    cbn [xml_wf] in Hwf; apply andb_true_iff in Hwf; destruct Hwf as [Hit Hq]; apply negb_true_iff in Hit; apply Z.eqb_eq in Hq; subst it q;
+    cbn [xml_wf] in Hwf; apply andb_true_iff in Hwf; destruct Hwf as [Hwf Hsk]; apply andb_true_iff in Hwf; destruct Hwf as [Hit Hq];
+    apply negb_true_iff in Hit; apply Z.eqb_eq in Hq; apply Z.eqb_eq in Hsk; subst it q sk;
     cbn [app] in Hr; rewrite (xml_body_endtag raw z ename erest Hr Hlet) by (right; rewrite Ee; eauto);
     rewrite Hhash; cbn [rbind]; rewrite Z.eqb_refl; cbn [rbind]; change (len (@nil Z)) with 0; reflexivity.
   - cbn [length] in Hn. lia.
   - cbn [length] in Hn, Hf. cbn [app] in Hr.
+    set (tail := 60 :: 47 :: ename ++ erest) in *.
     pose proof (len_nonneg t). pose proof (len_nonneg ename). pose proof (len_nonneg erest).
-    assert (Hlt : 1 <= len (c :: t ++ 60 :: 47 :: ename ++ erest)) by (rewrite len_cons; pose proof (len_nonneg (t ++ 60 :: 47 :: ename ++ erest)); lia).
-    pose proof (reads_mv _ _ 1 Hr ltac:(lia)) as Hr1.
-    change (skipz 1 (c :: t ++ 60 :: 47 :: ename ++ erest)) with (t ++ 60 :: 47 :: ename ++ erest) in Hr1.
-    (* a step of one byte *)
-    assert (Hone : forall it' q', xml_body raw (z, it, q) = Ok (Cont (mv z 1, it', q')) -> xml_wf raw it' q' t = true ->
-              rbind (xml_body raw (z, it, q)) (fun x => match x with Cont s' => loop k (xml_body raw) s' | Brk r => Ok r end) =
+    assert (Hlt : 1 <= len (c :: t ++ tail)) by (rewrite len_cons; pose proof (len_nonneg (t ++ tail)); lia).
+    (* a step of j bytes to the suffix s' of t *)
+    assert (Hjump : forall j s' it' q' sk', 1 <= j -> skipz j (c :: t) = s' -> j <= len (c :: t) ->
+              xml_body raw (z, it, q, sk) = Ok (Cont (mv z j, it', q', sk')) -> xml_wf n raw it' q' sk' s' = true ->
+              rbind (xml_body raw (z, it, q, sk)) (fun x => match x with Cont s'' => loop k (xml_body raw) s'' | Brk r => Ok r end) =
               Ok (inl (mv z (len (c :: t) + 2 + len ename)))).
-    { intros it' q' Hb Hw'. rewrite Hb. cbn [rbind]. rewrite (IH t ltac:(lia) (mv z 1) it' q' k Hr1 Hw' ltac:(lia)).
-      rewrite mv_mv, len_cons. do 3 f_equal. lia. }
+    { intros j s' it' q' sk' Hj Hs' Hjl Hb Hw'. rewrite Hb. cbn [rbind].
+      assert (Hlen' : len s' = len (c :: t) - j) by (rewrite <- Hs'; apply len_skipz; lia).
+      assert (Hr' : reads (mv z j) (s' ++ tail)).
+      { pose proof (reads_mv _ _ j Hr ltac:(change (c :: t ++ tail) with ((c :: t) ++ tail); rewrite len_app; pose proof (len_nonneg tail); lia)) as Hr'.
+        change (c :: t ++ tail) with ((c :: t) ++ tail) in Hr'. rewrite skipz_app_l in Hr' by lia. rewrite Hs' in Hr'. exact Hr'. }
+      assert (Hls' : (length s' < length (c :: t))%nat) by (unfold len in *; lia). cbn [length] in Hls'.
+      rewrite (IH s' ltac:(lia) (mv z j) it' q' sk' k Hr' Hw' ltac:(lia)).
+      rewrite mv_mv. do 3 f_equal. lia. }
+    assert (Hone : forall it' q' sk', xml_body raw (z, it, q, sk) = Ok (Cont (mv z 1, it', q', sk')) -> xml_wf n raw it' q' sk' t = true ->
+              rbind (xml_body raw (z, it, q, sk)) (fun x => match x with Cont s'' => loop k (xml_body raw) s'' | Brk r => Ok r end) =
+              Ok (inl (mv z (len (c :: t) + 2 + len ename)))).
+    { intros it' q' sk'. apply (Hjump 1 t); [lia|reflexivity|rewrite len_cons; lia]. }
+    (* what l.at sees: the pattern against the construct's own bytes *)
+    assert (Hatp : forall pat, nz_list pat -> ~ In 60 pat -> at_ z pat = Ok (prefixb pat (c :: t))).
+    { intros pat Hnz Hni. destruct Hr as [Hw Hrem]. rewrite at_rem by assumption. rewrite Hrem.
+      change (c :: t ++ tail) with ((c :: t) ++ 60 :: 47 :: ename ++ erest). rewrite prefixb_app_stop by exact Hni. reflexivity. }
     cbn [xml_wf] in Hwf.
     destruct (c =? 0) eqn:E0; [discriminate|].
     assert (Hpk : pkr z 0 = Ok c) by (apply (reads_pkr z _ 0 c Hr), peekz_cons_0).
+    destruct (negb (sk =? 0)) eqn:Esk.
+    { (* inside a comment, CDATA section or processing instruction *)
+      assert (Hb1 : (if sk =? 1 then at_ z [45; 45; 62] else if sk =? 2 then at_ z [93; 93; 62] else Ok false) =
+                    Ok (((sk =? 1) && prefixb [45; 45; 62] (c :: t)) || ((sk =? 2) && prefixb [93; 93; 62] (c :: t)))).
+      { destruct (sk =? 1) eqn:E1; cbn [andb orb].
+        - rewrite Hatp by (try (repeat constructor; lia); intros [E|[E|[E|[]]]]; discriminate).
+          replace (sk =? 2) with false by (symmetry; b2p; apply Z.eqb_neq; lia). cbn [andb]. rewrite orb_false_r. reflexivity.
+        - destruct (sk =? 2); cbn [andb]; [|reflexivity]. apply Hatp; [repeat constructor; lia|intros [E|[E|[E|[]]]]; discriminate]. }
+      assert (Hb2 : (if sk =? 3 then at_ z [63; 62] else Ok false) = Ok ((sk =? 3) && prefixb [63; 62] (c :: t))).
+      { destruct (sk =? 3); cbn [andb]; [|reflexivity]. apply Hatp; [repeat constructor; lia|intros [E|[E|[]]]; discriminate]. }
+      assert (Hbody : xml_body raw (z, it, q, sk) =
+                (if ((sk =? 1) && prefixb [45; 45; 62] (c :: t)) || ((sk =? 2) && prefixb [93; 93; 62] (c :: t)) then Ok (Cont (mv z 3, it, q, 0))
+                 else if (sk =? 3) && prefixb [63; 62] (c :: t) then Ok (Cont (mv z 2, it, q, 0)) else Ok (Cont (mv z 1, it, q, sk)))).
+      { unfold xml_body. rewrite Hpk. cbn [rbind]. rewrite Esk, E0. cbn [negb andb]. rewrite Hb1. cbn [rbind].
+        destruct (((sk =? 1) && prefixb [45; 45; 62] (c :: t)) || ((sk =? 2) && prefixb [93; 93; 62] (c :: t))); [reflexivity|].
+        rewrite Hb2. cbn [rbind]. destruct ((sk =? 3) && prefixb [63; 62] (c :: t)); reflexivity. }
+      destruct (((sk =? 1) && prefixb [45; 45; 62] (c :: t)) || ((sk =? 2) && prefixb [93; 93; 62] (c :: t))) eqn:Ep3.
+      - assert (H3 : 3 <= len (c :: t)).
+        { apply orb_true_iff in Ep3. destruct Ep3 as [Ep3|Ep3]; apply andb_true_iff in Ep3; destruct Ep3 as [_ Ep3]; apply prefixb_len in Ep3; exact Ep3. }
+        apply (Hjump 3 (skipz 2 t) it q 0); [lia|reflexivity|exact H3|exact Hbody|exact Hwf].
+      - destruct ((sk =? 3) && prefixb [63; 62] (c :: t)) eqn:Ep2.
+        + assert (H2 : 2 <= len (c :: t)) by (apply andb_true_iff in Ep2; destruct Ep2 as [_ Ep2]; apply prefixb_len in Ep2; exact Ep2).
+          apply (Hjump 2 (skipz 1 t) it q 0); [lia|reflexivity|exact H2|exact Hbody|exact Hwf].
+        + apply (Hone it q sk); [exact Hbody|exact Hwf]. }
+    apply negb_false_iff, Z.eqb_eq in Esk. subst sk.
     destruct (negb (q =? 0)) eqn:Eq.
-    { apply (Hone it (if c =? q then 0 else q)); [|exact Hwf]. unfold xml_body. rewrite Hpk. cbn [rbind]. rewrite Eq, E0. reflexivity. }
+    { apply (Hone it (if c =? q then 0 else q) 0); [|exact Hwf]. unfold xml_body. rewrite Hpk. cbn [rbind Z.eqb negb andb]. rewrite Eq, E0. reflexivity. }
     apply negb_false_iff, Z.eqb_eq in Eq. subst q.
     destruct it.
-    { apply (Hone (negb (c =? 62)) (if (c =? 34) || (c =? 39) then c else 0)); [|exact Hwf].
+    { apply (Hone (negb (c =? 62)) (if (c =? 34) || (c =? 39) then c else 0) 0); [|exact Hwf].
       unfold xml_body. rewrite Hpk. cbn [rbind Z.eqb negb andb]. rewrite E0. cbn [negb]. destruct (c =? 62); reflexivity. }
     destruct (c =? 60) eqn:E60.
-    2:{ apply (Hone false 0); [|exact Hwf]. unfold xml_body. rewrite Hpk. cbn [rbind Z.eqb negb andb]. rewrite E60, E0. reflexivity. }
+    2:{ apply (Hone false 0 0); [|exact Hwf]. unfold xml_body. rewrite Hpk. cbn [rbind Z.eqb negb andb]. rewrite E60, E0. reflexivity. }
     apply Z.eqb_eq in E60. subst c.
     destruct t as [|c1 t1]; [discriminate|].
+    assert (Hpk1 : pkr z 1 = Ok c1) by (apply (reads_pkr z _ 1 c1 Hr), peekz_1).
     destruct (c1 =? 47) eqn:E47.
-    2:{ apply (Hone (negb (c1 =? 33) && negb (c1 =? 63)) 0); [|exact Hwf]. unfold xml_body. rewrite Hpk. cbn [rbind Z.eqb negb andb].
-        rewrite (reads_pkr z _ 1 c1 Hr (peekz_1 _ _ _)). cbn [rbind]. rewrite E47. reflexivity. }
+    2:{ (* "<" + something that is not "/" *)
+      assert (Hat4 : at_ z [60; 33; 45; 45] = Ok (prefixb [33; 45; 45] (c1 :: t1))).
+      { destruct Hr as [Hw Hrem]. rewrite at_rem by (try assumption; repeat constructor; lia). rewrite Hrem.
+        change (60 :: (c1 :: t1) ++ tail) with (60 :: (c1 :: t1) ++ 60 :: 47 :: ename ++ erest). rewrite prefixb_cons_same.
+        rewrite prefixb_app_stop by (intros [E|[E|[E|[]]]]; discriminate). reflexivity. }
+      assert (Hat9 : at_ z [60; 33; 91; 67; 68; 65; 84; 65; 91] = Ok (prefixb [33; 91; 67; 68; 65; 84; 65; 91] (c1 :: t1))).
+      { destruct Hr as [Hw Hrem]. rewrite at_rem by (try assumption; repeat constructor; lia). rewrite Hrem.
+        change (60 :: (c1 :: t1) ++ tail) with (60 :: (c1 :: t1) ++ 60 :: 47 :: ename ++ erest). rewrite prefixb_cons_same.
+        rewrite prefixb_app_stop by (intros [E|[E|[E|[E|[E|[E|[E|[E|[]]]]]]]]]; discriminate). reflexivity. }
+      assert (Hbody : xml_body raw (z, false, 0, 0) =
+                (if prefixb [33; 45; 45] (c1 :: t1) then Ok (Cont (mv z 4, false, 0, 1))
+                 else if prefixb [33; 91; 67; 68; 65; 84; 65; 91] (c1 :: t1) then Ok (Cont (mv z 9, false, 0, 2))
+                 else if c1 =? 63 then Ok (Cont (mv z 2, false, 0, 3)) else Ok (Cont (mv z 1, negb (c1 =? 33), 0, 0)))).
+      { unfold xml_body. rewrite Hpk. cbn [rbind Z.eqb Pos.eqb negb andb]. rewrite Hpk1. cbn [rbind]. rewrite E47. cbn [negb].
+        rewrite Hat4. cbn [rbind]. destruct (prefixb [33; 45; 45] (c1 :: t1)); [reflexivity|].
+        rewrite Hat9. cbn [rbind]. destruct (prefixb [33; 91; 67; 68; 65; 84; 65; 91] (c1 :: t1)); reflexivity. }
+      destruct (prefixb [33; 45; 45] (c1 :: t1)) eqn:P4.
+      { pose proof (prefixb_len _ _ P4) as L4. change (len [33; 45; 45]) with 3 in L4.
+        apply (Hjump 4 (skipz 3 (c1 :: t1)) false 0 1); [lia|reflexivity|rewrite len_cons; lia|exact Hbody|exact Hwf]. }
+      destruct (prefixb [33; 91; 67; 68; 65; 84; 65; 91] (c1 :: t1)) eqn:P9.
+      { pose proof (prefixb_len _ _ P9) as L9. change (len [33; 91; 67; 68; 65; 84; 65; 91]) with 8 in L9.
+        apply (Hjump 9 (skipz 8 (c1 :: t1)) false 0 2); [lia|reflexivity|rewrite len_cons; lia|exact Hbody|exact Hwf]. }
+      destruct (c1 =? 63) eqn:E63.
+      { apply (Hjump 2 t1 false 0 3); [lia|reflexivity|rewrite !len_cons; pose proof (len_nonneg t1); lia|exact Hbody|exact Hwf]. }
+      apply (Hone (negb (c1 =? 33)) 0 0); [exact Hbody|exact Hwf]. }
     (* a nested end tag: jump over its letters *)
     apply Z.eqb_eq in E47. subst c1. apply andb_true_iff in Hwf. destruct Hwf as [Hh Hwf].
     destruct (letter_run_split t1) as (r1 & Et1 & Hl1 & Hr1').
     set (ls := letter_run t1) in *.
     destruct (to_hash (map lower ls)) as [h| |] eqn:Eh; try discriminate.
-    assert (Hr' : reads z (60 :: 47 :: ls ++ r1 ++ 60 :: 47 :: ename ++ erest)).
+    assert (Hr' : reads z (60 :: 47 :: ls ++ r1 ++ tail)).
     { cbn [app] in Hr. rewrite Et1, <- app_assoc in Hr. exact Hr. }
-    rewrite (xml_body_endtag raw z ls _ Hr' Hl1).
-    2:{ right. destruct Hr1' as [->|(c' & r' & -> & Hc')]; [exists 60, (47 :: ename ++ erest); split; reflexivity|exists c', (r' ++ 60 :: 47 :: ename ++ erest); split; [reflexivity|exact Hc']]. }
-    rewrite Eh. cbn [rbind]. apply negb_true_iff in Hh. rewrite Hh. cbn [rbind].
+    assert (Hsk1 : skipz (len ls) t1 = r1) by (rewrite Et1; apply skipz_app_len).
+    rewrite Hsk1 in Hwf.
     pose proof (len_nonneg ls). pose proof (len_nonneg r1).
-    pose proof (reads_mv _ _ (2 + len ls) Hr' ltac:(rewrite !len_cons, len_app; pose proof (len_nonneg (r1 ++ 60 :: 47 :: ename ++ erest)); lia)) as Hr2.
-    assert (Hsk : skipz (2 + len ls) (60 :: 47 :: ls ++ r1 ++ 60 :: 47 :: ename ++ erest) = r1 ++ 60 :: 47 :: ename ++ erest).
-    { change (60 :: 47 :: ls ++ r1 ++ 60 :: 47 :: ename ++ erest) with ([60; 47] ++ ls ++ r1 ++ 60 :: 47 :: ename ++ erest).
-      rewrite app_assoc. replace (2 + len ls) with (len ([60; 47] ++ ls)) by (rewrite len_app; reflexivity). apply skipz_app_len. }
-    rewrite Hsk in Hr2.
-    assert (Hw1 : xml_wf raw false 0 r1 = true).
-    { rewrite <- Hwf. rewrite Et1. change (47 :: ls ++ r1) with ((47 :: ls) ++ r1). symmetry. apply xml_wf_data_skip.
-      constructor; [split; discriminate|]. eapply Forall_impl; [|exact Hl1]. intros a. apply letter_data. }
-    assert (Hlen1 : (length t1 = length ls + length r1)%nat) by (rewrite Et1 at 1; apply app_length).
-    cbn [length] in Hn, Hf.
-    rewrite (IH r1 ltac:(lia) (mv z (2 + len ls)) false 0 k Hr2 Hw1 ltac:(lia)).
-    assert (Hlt1 : len t1 = len ls + len r1) by (unfold len; lia).
-    rewrite mv_mv. do 3 f_equal. rewrite !len_cons. lia.
+    assert (Hlt1 : len t1 = len ls + len r1) by (rewrite Et1 at 1; apply len_app).
+    apply (Hjump (2 + len ls) r1 false 0 0); [lia| |rewrite !len_cons; lia| |exact Hwf].
+    { change (60 :: 47 :: t1) with ([60; 47] ++ t1). rewrite Et1, app_assoc.
+      replace (2 + len ls) with (len ([60; 47] ++ ls)) by (rewrite len_app; reflexivity). apply skipz_app_len. }
+    rewrite (xml_body_endtag raw z ls _ Hr' Hl1).
+    2:{ right. destruct Hr1' as [->|(c' & r' & -> & Hc')]; [exists 60, (47 :: ename ++ erest); split; reflexivity|exists c', (r' ++ tail); split; [reflexivity|exact Hc']]. }
+    rewrite Eh. cbn [rbind]. apply negb_true_iff in Hh. rewrite Hh. reflexivity.
 Qed.
 
 Lemma xml_close_loop_run z ews rest : reads z (ews ++ 62 :: rest) -> Forall (fun c => c <> 62 /\ c <> 0) ews ->
@@ -1228,7 +1299,7 @@ Lemma next_foreign d l pre name inner ename ews rest h :
   lerr l = false ->
   (exists c nm, name = c :: nm /\ is_letter c = true) -> Forall namechar name ->
   to_hash (map lower name) = Ok h -> to_hash (map lower ename) = Ok h -> is_xml_hash h = true ->
-  (exists c r, inner = c :: r /\ (is_ws c = true \/ c = 62)) -> xml_wf h true 0 inner = true ->
+  (exists c r, inner = c :: r /\ (is_ws c = true \/ c = 62)) -> xml_wf (length inner) h true 0 0 inner = true ->
   Forall (fun c => is_letter c = true) ename -> Forall (fun c => is_ws c = true) ews ->
   let n := 1 + len name + len inner + 2 + len ename + len ews + 1 in
   exists l', next no_tmpl l = Ok (foreign_ty h, Some (mkSl (len pre) n), l') /\
@@ -1277,7 +1348,7 @@ Proof.
     inversion Hews as [|? ? Hw _]; subst. unfold is_ws in Hw. unfold is_letter.
     repeat (apply orb_true_iff in Hw; destruct Hw as [Hw|Hw]); apply Z.eqb_eq in Hw; subst w; reflexivity. }
   unfold shift_xml.
-  rewrite (xml_loop_run h ename (ews ++ 62 :: rest) Helet Heh Herest (length inner) inner (le_n _) z2 true 0 (fuel_of z2) Hr3 Hinner).
+  rewrite (xml_loop_run h ename (ews ++ 62 :: rest) Helet Heh Herest (length inner) inner (le_n _) z2 true 0 0 (fuel_of z2) Hr3 Hinner).
   2:{ pose proof (fuel_of_enough z2 tl (len inner) Hr3 ltac:(lia)) as Hfe. unfold len in Hfe. rewrite Nat2Z.id in Hfe. exact Hfe. }
   cbn [rbind].
   pose proof (reads_mv _ _ (len inner + 2 + len ename) Hr3 ltac:(lia)) as Hr4.
